@@ -93,10 +93,14 @@ def make(prop, fam, tmpl, opname, attr=None, conform=True, inplace_mode="sym", f
                 assume(ip)
             if opname.startswith("ctor"):
                 assume(not ip)
+            if opname == "setitem_dup":
+                assume(ip)
             op = k4_ops(NS, opname, P, ip, conform)
         elif tmpl == "K5":
             o, by = build_k5(NS, P), build_k5(NS, P)
             if opname.startswith("setattr"):
+                assume(ip)
+            if opname.endswith("_unset"):
                 assume(ip)
             op = k5_ops(NS, opname, P, ip)
             op.must_raise = False
